@@ -4,6 +4,9 @@
 // compiled only under the build tag "verif").
 package value
 
+// Every function under contract in this package also serves the properties that depend on the whole package.
+//@ package-props C01 C03 C19
+
 // What protobuf decoding guarantees for a TypedValue: a set oneof holds a
 // non-nil wrapper, message-valued arms hold a non-nil message, a leaf-list has
 // no nil element.
